@@ -53,6 +53,18 @@ static int child_main(int argc, char** argv) {
     if (!getcwd(cwd, sizeof cwd)) strcpy(cwd, "?");
     n += snprintf(buf + n, sizeof buf - n, "R cwd %s\nR env %s\nR sid %d\nR uid %d %d\nR nenv %d\n", cwd, v ? v : "(unset)",
                   getsid(0) == getpid(), (int) getuid(), (int) getgid(), getenv("PATH") != NULL);
+    { /* exact environ, argv (hex, so that any byte survives the line protocol), image, session / group */
+      extern char** environ; char** e; int a; char exe[1024]; ssize_t el = readlink("/proc/self/exe", exe, sizeof exe - 1);
+      exe[el > 0 ? el : 0] = 0;
+      n += snprintf(buf + n, sizeof buf - n, "R proc %d %d %d\nR exe %s\n", (int) getpid(), (int) getsid(0), (int) getpgrp(), exe);
+      for (e = environ; e && *e; e++) { const char* c; n += snprintf(buf + n, sizeof buf - n, "R environ x");
+        for (c = *e; *c && n < (int) sizeof buf - 8; c++) n += snprintf(buf + n, sizeof buf - n, "%02x", (unsigned char) *c);
+        n += snprintf(buf + n, sizeof buf - n, "\n"); }
+      for (a = 0; a < argc; a++) { const char* c; if (a >= 1 && a <= 4) continue;
+        n += snprintf(buf + n, sizeof buf - n, "R argv %d x", a);
+        for (c = argv[a]; *c && n < (int) sizeof buf - 8; c++) n += snprintf(buf + n, sizeof buf - n, "%02x", (unsigned char) *c);
+        n += snprintf(buf + n, sizeof buf - n, "\n"); }
+    }
     if (argv[3][0] != '/' || !strncmp(argv[3], "/dev", 4) || !strstr(argv[3], "/c12spawn/")) return 3;   /* only ever our own tmp dir */
     fd = open(argv[3], O_WRONLY | O_CREAT | O_TRUNC | O_NOFOLLOW, 0600);
     if (fd < 0) return 3;
@@ -250,6 +262,87 @@ static void do_chld(char** w, int nw) {
   uv_signal_stop(&usig[0]); uv_signal_stop(&usig[1]);
 }
 
+static int unhex(const char* h, char* o, size_t cap) {
+  size_t k = 0; if (*h == 'x') h++;
+  for (; h[0] && h[1] && k + 1 < cap; h += 2) { unsigned v; if (sscanf(h, "%2x", &v) != 1) return -1; o[k++] = (char) v; }
+  o[k] = 0; return (int) k;
+}
+static void status_lines(const char* path, const char* pfx) {     /* Uid:/Gid:/Groups: of a /proc/<pid>/status style file */
+  FILE* f = fopen(path, "re"); char l[1024];
+  if (!f) { fprintf(out, "%s missing\n", pfx); return; }
+  while (fgets(l, sizeof l, f)) if (!strncmp(l, "Uid:", 4) || !strncmp(l, "Gid:", 4) || !strncmp(l, "Groups:", 7)) {
+    char* q; for (q = l; *q; q++) if (*q == '\t' || *q == '\n') *q = ' ';
+    fprintf(out, "%s %s\n", pfx, l);
+  }
+  fclose(f);
+}
+/* ids <setuid 0|1> <uid> <setgid 0|1> <gid>: credentials as seen from inside the child.  The unprivileged child cannot exec
+ * the harness in its private directory, so /bin/sh runs grep on /proc/self/status into an inherited descriptor. */
+static void do_ids(char** w) {
+  uv_process_options_t opt; uv_stdio_container_t sc[3]; char rp[1024]; int rf, rc;
+  char* args[4] = { "sh", "-c", "grep -E '^(Uid|Gid|Groups):' /proc/self/status", NULL };
+  snprintf(rp, sizeof rp, "%s/ids", tmpdir);
+  rf = open(rp, O_RDWR | O_CREAT | O_TRUNC | O_CLOEXEC | O_NOFOLLOW, 0600);
+  if (rf < 0) { fprintf(out, "bad-op\nend\n"); return; }
+  sc[0].flags = UV_IGNORE; sc[1].flags = UV_INHERIT_FD; sc[1].data.fd = rf; sc[2].flags = UV_IGNORE;
+  memset(&opt, 0, sizeof opt); opt.file = "/bin/sh"; opt.args = args; opt.exit_cb = exit_cb; opt.stdio = sc; opt.stdio_count = 3;
+  if (atoi(w[1])) { opt.flags |= UV_PROCESS_SETUID; } opt.uid = atoi(w[2]);
+  if (atoi(w[3])) { opt.flags |= UV_PROCESS_SETGID; } opt.gid = atoi(w[4]);
+  status_lines("/proc/self/status", "P");
+  ncb = 0; nprocs = 1; cbcount[0] = 0;
+  rc = spawn_checked(loop, &procs[0], &opt);
+  pids[0] = rc == 0 ? uv_process_get_pid(&procs[0]) : -1;
+  fprintf(out, "spawn %s active=%d\n", rc == 0 ? "0" : uv_err_name(rc), uv_is_active((uv_handle_t*) &procs[0]));
+  if (rc == 0) { run_until(1, 10000); abandon(1); } else uv_close((uv_handle_t*) &procs[0], on_close);
+  uv_run(loop, UV_RUN_DEFAULT);
+  close(rf);
+  status_lines(rp, "I");
+  unlink(rp);
+  zombies();
+  fprintf(out, "end\n");
+}
+
+/* opts <det 0|1> <cwd|-> <env: inherit | x<hex k=v>,x<hex>,... | none> <file: abs|argv0|bare> <xhexarg>*
+ * `@` at the start of an env value PATH=@ stands for the directory of the harness binary. */
+static void do_opts(char** w, int nw) {
+  uv_process_options_t opt; char rp[1024]; char* args[64]; char* env[64]; static char store[64][512]; int ns = 0, na = 0, ne = 0, rc, i;
+  char dir[1024]; char* base; extern char** environ; char** e;
+  snprintf(dir, sizeof dir, "%s", self); base = strrchr(dir, '/'); *base++ = 0;
+  snprintf(rp, sizeof rp, "%s/report", tmpdir); unlink(rp);
+  memset(&opt, 0, sizeof opt);
+  if (!strcmp(w[4], "abs")) { opt.file = self; args[na++] = self; }
+  else if (!strcmp(w[4], "argv0")) { opt.file = self; args[na++] = "custom argv0"; }
+  else if (!strcmp(w[4], "bare")) { opt.file = base; args[na++] = base; }
+  else { fprintf(out, "bad-op\nend\n"); return; }
+  args[na++] = "child"; args[na++] = "report"; args[na++] = rp; args[na++] = "5";
+  for (i = 5; i < nw && na < 62 && ns < 64; i++) { unhex(w[i], store[ns], sizeof store[ns]); args[na++] = store[ns++]; }
+  args[na] = NULL;
+  if (strcmp(w[3], "inherit")) {
+    char* tok; char* sp = NULL;
+    if (strcmp(w[3], "none")) for (tok = strtok_r(w[3], ",", &sp); tok && ne < 62 && ns < 64; tok = strtok_r(NULL, ",", &sp)) {
+      char tmp[512]; unhex(tok, tmp, sizeof tmp);
+      if (!strncmp(tmp, "PATH=@", 6)) snprintf(store[ns], sizeof store[ns], "PATH=%s%s", dir, tmp + 6); else snprintf(store[ns], sizeof store[ns], "%s", tmp);
+      env[ne++] = store[ns++];
+    }
+    env[ne] = NULL; opt.env = env;
+  }
+  opt.args = args; opt.exit_cb = exit_cb;
+  if (atoi(w[1])) opt.flags |= UV_PROCESS_DETACHED;
+  if (strcmp(w[2], "-")) opt.cwd = w[2];
+  fprintf(out, "P proc %d %d %d\nP exe %s\nP dir %s\n", (int) getpid(), (int) getsid(0), (int) getpgrp(), self, dir);
+  { char cwd[1024]; fprintf(out, "P cwd %s\n", getcwd(cwd, sizeof cwd) ? cwd : "?"); }
+  for (e = environ; e && *e; e++) { const char* c; fprintf(out, "P environ x"); for (c = *e; *c; c++) fprintf(out, "%02x", (unsigned char) *c); fprintf(out, "\n"); }
+  ncb = 0; nprocs = 1; cbcount[0] = 0;
+  rc = spawn_checked(loop, &procs[0], &opt);
+  pids[0] = rc == 0 ? uv_process_get_pid(&procs[0]) : -1;
+  fprintf(out, "spawn %s active=%d pid=%d\n", rc == 0 ? "0" : uv_err_name(rc), uv_is_active((uv_handle_t*) &procs[0]), (int) pids[0]);
+  if (rc == 0) { run_until(1, 10000); abandon(1); } else uv_close((uv_handle_t*) &procs[0], on_close);
+  uv_run(loop, UV_RUN_DEFAULT);
+  if (rc == 0) cat_report(rp);
+  zombies();
+  fprintf(out, "end\n");
+}
+
 /* kill <process|pid> <sig> */
 static void do_kill(char** w) {
   uv_process_options_t opt; char* args[4] = { self, "child", "pause", NULL }; int rc, sig = atoi(w[2]), pid;
@@ -325,6 +418,9 @@ int main(int argc, char** argv) {
   in = fdopen(fcntl(0, F_DUPFD_CLOEXEC, 200), "r");
   out = fdopen(fcntl(1, F_DUPFD_CLOEXEC, 200), "w");
   setvbuf(out, NULL, _IOLBF, 0);
+  { char d[1024], np[4096]; char* b; const char* op = getenv("PATH");
+    snprintf(d, sizeof d, "%s", self); b = strrchr(d, '/'); if (b) *b = 0;
+    snprintf(np, sizeof np, "%s:%s", op ? op : "/usr/bin:/bin", d); setenv("PATH", np, 1); }
   uv_replace_allocator(d_malloc, d_realloc, d_calloc, d_free);
   loop = uv_default_loop();
   for (i = 0; i < 2; i++) { uv_signal_init(loop, &usig[i]); uv_unref((uv_handle_t*) &usig[i]); }
@@ -335,6 +431,8 @@ int main(int argc, char** argv) {
     if (!strcmp(w[0], "layout") && nw >= 7) do_layout(w, nw);
     else if (!strcmp(w[0], "many") && nw >= 2) do_many(w, nw);
     else if (!strcmp(w[0], "chld") && nw >= 4) do_chld(w, nw);
+    else if (!strcmp(w[0], "ids") && nw == 5) do_ids(w);
+    else if (!strcmp(w[0], "opts") && nw >= 5) do_opts(w, nw);
     else if (!strcmp(w[0], "kill") && nw == 3) do_kill(w);
     else if (!strcmp(w[0], "echo")) do_echo();
     else if (!strcmp(w[0], "place") && nw == 3) {     /* place <fd> <basefd>: dup a base file to a chosen free number */
